@@ -392,3 +392,75 @@ Proof.
   assert (Hrow : 0 <= v_row st < blen b') by (unfold st; cbn [vs_pos v_row]; lia).
   rewrite finish_buf, finish_regs, finish_row, finish_off by exact Hrow. unfold st. cbn [vs_pos v_row v_off]. repeat split; reflexivity.
 Qed.
+
+(* ---------- S / cc with plain text ---------- *)
+Lemma span_blank_nonl l : Forall (fun c : chr => b0 c <> 10%N) (fst (span_blank l)).
+Proof.
+  induction l as [|c r IH]; cbn [span_blank]; [constructor|].
+  destruct (is_blankc c) eqn:E; [|constructor]. destruct (span_blank r) as [a z]. cbn [fst] in *. constructor; [|exact IH].
+  unfold is_blankc in E. apply orb_true_iff in E. destruct E as [E|E]; apply N.eqb_eq in E; lia.
+Qed.
+
+Lemma refines_S_plain rows e y cnt typed e1 l0 : plain_reg y ->
+  let b := s_buf e in let s := s_vs e in
+  buf_wf b -> cursor_ok b (v_row s) (v_off s) -> getl b (v_row s) = Some l0 -> 0 <= cnt ->
+  forallb plain_key typed = true -> existsb (fun c => negb (is_blankc c)) typed = true ->
+  exec1 rows (c_S y cnt typed) e = Some e1 ->
+  let r2 := Z.min (v_row s + Z.max 1 cnt - 1) (blen b - 1) in
+  let ind := fst (span_blank l0) in
+  s_buf e1 = firstn (Z.to_nat (v_row s)) b ++ [ind ++ typed ++ [nlc]] ++ skipn (Z.to_nat (r2 + 1)) b /\
+  reg_get (s_regs e1) y = Some (ViDefs.flat (concat (rows_between b (v_row s) (r2 + 1))), true) /\
+  v_row (s_vs e1) = v_row s /\ v_off (s_vs e1) = slen ind + slen typed - 1.
+Proof.
+  intros [Hy Hq] b s HW Hc El Hn Hp Hnb X r2 ind.
+  assert (Hr : 0 <= v_row s < blen b) by (apply getl_some in El; lia).
+  assert (Hlt : (1 <= length typed)%nat) by (destruct typed; [discriminate|cbn; lia]).
+  pose proof (plain_nonl typed Hp) as Ht.
+  assert (Ecnt : (if cnt =? 0 then 1 else cnt) * (if 0 =? 0 then 1 else 0) = Z.max 1 cnt) by (destruct (Z.eqb_spec cnt 0); cbn; lia).
+  set (o1 := ren_noeol (getl b (v_row s)) (v_off s)).
+  assert (T : op_target b rows s cnt 0 TDbl o1 = TOk Kunder r2 (-1) (v_cl s) (v_cc s) (v_pcol s)).
+  { unfold op_target. rewrite Ecnt. fold r2. destruct (Z.ltb_spec r2 0); [unfold r2 in *; lia|]. reflexivity. }
+  change (exec1 rows (c_S y cnt typed) e) with (exec_op rows e y cnt Oc 0 TDbl typed) in X.
+  unfold exec_op in X. fold b s o1 in X. rewrite T in X.
+  change (v_row (vs_mot s (v_cl s) (v_cc s) (v_pcol s))) with (v_row s) in X.
+  destruct (vc_region_line b Kunder (v_row s) o1 r2 (-1) ltac:(lia)) as (G1 & G2 & G3).
+  set (g := vc_region b Kunder (v_row s) o1 r2 (-1)) in *.
+  assert (Hr2 : v_row s <= r2 < blen b) by (unfold r2; lia).
+  rewrite Z.min_l in G2 by lia. rewrite Z.max_r in G3 by lia.
+  unfold vi_change, region_text in X. rewrite G1, G2, G3 in X. cbn [orb] in X. rewrite El in X. unfold vi_indents in X. cbn [optl] in X. fold ind in X.
+  rewrite vi_input_plain in X; try assumption; [|apply span_blank_nonl|exists []; split; [reflexivity|constructor]].
+  cbn [nextlines snd] in X. replace (v_row s + 1 - 1) with (v_row s) in X by lia.
+  destruct (range_split b (v_row s) r2 ltac:(lia) ltac:(lia)) as (pre & x & post & Eb & Lp & Lx).
+  assert (Hx : x <> []) by (intro; subst x; cbn [length] in Lx; lia).
+  assert (ET : lbuf_region b (v_row s) 0 r2 (-1) = concat x).
+  { rewrite Eb, <- Lp. replace r2 with (Z.of_nat (length pre) + Z.of_nat (length x) - 1) by lia. apply region_lines, Hx. }
+  assert (ER : rows_between b (v_row s) (r2 + 1) = x).
+  { rewrite Eb, <- Lp. replace (r2 + 1) with (Z.of_nat (length pre) + Z.of_nat (length x)) by lia. apply rows_between_decomp. }
+  rewrite ET in X. rewrite ER.
+  set (nb := ind ++ typed).
+  assert (ENB : ind ++ typed ++ [nlc] = nb ++ [nlc]) by (unfold nb; rewrite <- app_assoc; reflexivity).
+  rewrite ENB in *.
+  assert (Wn : line_wf (nb ++ [nlc])).
+  { apply body_wf. unfold nb. apply Forall_app. split; [apply span_blank_nonl|exact Ht]. }
+  replace (r2 + 1) with (v_row s + Z.of_nat (length x)) in X by lia.
+  rewrite lbuf_edit_some in X by lia. rewrite (split_text_line _ Wn) in X.
+  assert (EG : firstn (Z.to_nat (v_row s)) b ++ [nb ++ [nlc]] ++ skipn (Z.to_nat (r2 + 1)) b = pre ++ [nb ++ [nlc]] ++ post).
+  { rewrite Eb, <- Lp, Nat2Z.id, firstn_app_exact. f_equal. f_equal.
+    replace (Z.of_nat (length pre) + Z.of_nat (length x) - 1 + 1) with (Z.of_nat (length (pre ++ x))) by (rewrite app_length; lia).
+    replace (r2 + 1) with (Z.of_nat (length (pre ++ x))) by (rewrite app_length; lia).
+    rewrite Nat2Z.id, app_assoc, skipn_app_exact. reflexivity. }
+  rewrite EG.
+  match type of X with context [set_row b (v_row s) ?ls (Z.of_nat (length x))] =>
+    assert (EB : set_row b (v_row s) ls (Z.of_nat (length x)) = pre ++ ls ++ post) by (rewrite Eb, <- Lp; apply set_row_decomp);
+    rewrite EB in X end.
+  match type of X with context [finish rows ?bb _ _ _] => remember bb as b' eqn:Eb' end.
+  assert (G : getl b' (v_row s) = Some (nb ++ [nlc])).
+  { rewrite Eb'. rewrite getl_app_r by lia. rewrite <- Lp, Z.sub_diag. reflexivity. }
+  assert (Hb' : v_row s < blen b') by (rewrite Eb', !blen_app; unfold blen; cbn [length]; lia).
+  inversion X; subst e1. clear X. set (st := vs_top _ _).
+  assert (Hrow : 0 <= v_row st < blen b') by (unfold st; cbn [vs_top vs_pos v_row]; lia).
+  rewrite finish_buf, finish_regs, finish_row, finish_off by exact Hrow. unfold st. cbn [vs_top vs_pos v_row v_off]. rewrite G.
+  replace (Z.max 0 (slen ind + slen typed - 1)) with (slen ind + slen typed - 1) by (unfold slen; lia).
+  repeat split; try reflexivity; [exact Eb'|apply put_get_plain; assumption|].
+  apply ren_noeol_id; [exact Wn|]. unfold off_ok, slen. rewrite app_length. unfold nb. rewrite !app_length. cbn [length]. lia.
+Qed.
